@@ -457,6 +457,37 @@ def search(ctx, n_hist, length):
     return found
 
 
+def with_block_e2e(ctx):
+    """Public calls whose tensor arguments are all Python / numpy scalars, inside a `with backend:` block: the innermost
+    block decides (precedence: backend argument, then the block, then the tensor types), so the outcome must be that of the
+    same call with `backend=` given explicitly."""
+    import einx
+    import numpy as _np
+    def outcome(f):
+        try:
+            r = f()
+            return ("text", r) if isinstance(r, str) else ("value", _np.asarray(r).tolist())
+        except Exception as e:
+            return ("raises", type(e).__name__)
+    calls = [("add", ", -> ", (1, 2)), ("multiply", ", -> ", (1.5, 2.0)), ("add", ", -> ", (1, _np.float32(2.0))), ("where", ", , -> ", (True, 1, 2.0)),
+             ("add", "a, -> a", (_np.arange(3), 2))]
+    for bname in ("numpy.einsum", "numpy.numpylike"):
+        b = einx.backend.get(bname)
+        for op, desc, args in calls:
+            for graph in (True, False):
+                kw = {"graph": True} if graph else {}
+                want = outcome(lambda: getattr(einx, op)(desc, *args, backend=bname, **kw))
+                with b:
+                    got = outcome(lambda: getattr(einx, op)(desc, *args, **kw))
+                ctx.count("with-block-e2e:" + ("agree" if got == want else "DIFFER"))
+                ctx.case(f"with-e2e:{bname}:{op}:{desc}:{graph}", True)
+                if got != want:
+                    ctx.violation(f"history: with {bname}: einx.{op}({desc!r}, {', '.join(type(a).__name__ for a in args)}{', graph=True' if graph else ''}) differs from the same call with backend={bname!r}",
+                                  {"kind": "the innermost `with backend:` block does not decide the backend of a call without backend argument", "backend": bname,
+                                   "op": op, "description": desc, "argument_types": [type(a).__name__ for a in args], "inside_with": list(got)[:2], "explicit_backend": list(want)[:2]})
+                    return
+
+
 def run(ctx):
     rng = ctx.rng
     facts = ctx.facts.get("Registry", {})
@@ -492,6 +523,7 @@ def run(ctx):
     # the oracle run is cheap; always do a few, and many more when a proof or a tie is broken
     broken = bool(ctx.broken)
     search(ctx, (400 if ctx.quick else 5000) if broken else (60 if ctx.quick else 2000), 30)
+    with_block_e2e(ctx)
 
 
 def replay(ctx, path):
